@@ -1284,3 +1284,8 @@ impl TxPoolService {
         }
     }
 }
+
+#[cfg(feature = "verif-hooks")]
+pub(crate) async fn verif_process(service: TxPoolService, message: Message) {
+    process(service, message).await
+}
